@@ -383,14 +383,20 @@ func runC04(w *World, tier string) (bool, interface{}) {
 		}
 	}
 	wrongOK := 0
-	for k := 0; k < 3; k++ {
+	for k := 0; k < 5; k++ {
 		m, err := airgapped.NewMachine(dir)
 		if err != nil {
 			break
 		}
 		wp := append([]byte(fmt.Sprintf("wrong-%d-", k)), pw[:w.Tape.Choose(len(pw), "wrongPwLen")]...)
-		if k == 2 {
+		switch k {
+		case 2:
 			wp = append(append([]byte(nil), pw...), 'x')
+		case 3: // same length, one character off
+			wp = append([]byte(nil), pw...)
+			wp[w.Tape.Choose(len(wp), "pwPos")] ^= 0x01
+		case 4: // same length, all zero bytes
+			wp = make([]byte, len(pw))
 		}
 		m.SetEncryptionKey(wp)
 		if err := m.LoadKeysFromDB(); err == nil {
